@@ -1,5 +1,6 @@
 """Models of numpy functions over SArr (assumed contracts; each is named in evidence.trusted_base)."""
 import numpy as np
+import z3
 
 from . import core
 from .arrays import SArr, elem_cast, sym_prod
@@ -423,6 +424,54 @@ def m_rint(interp, a, out=None, **kw):
         out._assign(res)
         return out
     return res
+
+
+def _round_dir(v, mode):
+    """floor / ceil / trunc of one element in the regime it lives in"""
+    Z = core.Z
+    if isinstance(v, core.SFP):
+        rm = {"floor": z3.RTN(), "ceil": z3.RTP(), "trunc": z3.RTZ()}[mode]
+        return core.SFP(z3.fpRoundToIntegral(rm, v.t))
+    if isinstance(v, (SInt, int)):
+        return v
+    if isinstance(v, core.SDyad):
+        if v.den == 1:
+            return v
+        fl = v.num / v.den                       # floor: the denominator is a positive constant
+        exact = (v.num % v.den == 0)
+        cl = z3.If(exact, fl, fl + 1)
+        res = {"floor": fl, "ceil": cl, "trunc": z3.If(v.num >= 0, fl, cl)}[mode]
+        return core.SDyad(res, 1)
+    t = core._r(v)
+    fl = Z.ToInt(t)
+    cl = Z.If(Z.ToReal(fl) == t, fl, fl + 1)
+    res = {"floor": fl, "ceil": cl, "trunc": Z.If(t >= 0, fl, cl)}[mode]
+    return SReal(Z.ToReal(res))
+
+
+def _mk_round_model(npf, mode):
+    @model(npf)
+    def m_round(interp, a, out=None, **kw):
+        c = ctx()
+        if not isinstance(a, SArr):
+            return _native(npf, a, out=out, **kw)
+        c.trust(f"np.{mode}: element-wise {mode} in the float regime of the operand")
+        from .arrays import SBuf
+        frozen = SArr(SBuf(a.buf.fn, a.buf.shape), a.shape, a.axes, a.dtype)
+        res = SArr.from_fn(lambda *i: _round_dir(frozen.elem(*i), mode), a.shape, a.dtype)
+        if out is not None:
+            if not isinstance(out, SArr) or len(out.shape) != len(a.shape):
+                raise Unsupported(f"np.{mode} with an out array of another rank")
+            if not out.writeable:
+                raise RaiseSig(ValueError("output array is read-only"))
+            out._assign(res)
+            return out
+        return res
+    return m_round
+
+
+for _f, _m in ((np.floor, "floor"), (np.ceil, "ceil"), (np.trunc, "trunc")):
+    _mk_round_model(_f, _m)
 
 
 @model(np.clip)
